@@ -304,8 +304,11 @@ class CommandLineJob(Job):
         processbuilder.stdout = Redirect.file(self.stdout)
         self._process = processbuilder.start(True)
 
-        with self.pidpath.open("w") as fp:
+        # Write the PID file atomically (a watcher must never see it empty)
+        tmppath = self.pidpath.with_suffix(".pid.tmp")
+        with tmppath.open("w") as fp:
             json.dump(self._process.tospec(), fp)
+        tmppath.replace(self.pidpath)
 
         self.state = JobState.RUNNING
         logger.info("Process started (%s)", self._process)
